@@ -38,7 +38,7 @@ CHECKS = {
             "Step budget (fault-free calls + 50) is the deterministic definition of 'promptly'; write-path errors not injected."),
     "C08": ("exploration", "deterministic simulation with storage-damage injection between incarnations: in-place overwrites aimed by an independent WAL parser",
             "DESIGN.md §5 C08", "Seeded histories x 1-4 aimed or uniform in-place overwrites of the cleanly dropped image; every recovered record must be one that was appended to that queue, positions strictly increasing.",
-            "Up to a CRC-32 collision; membership judged on (position, 64-bit payload digest, length)."),
+            "Up to a CRC-32 collision; membership judged on (position, 64-bit payload digest, length). Known findings K1/K2 (payloads that embed a CRC-valid frame, reached through the unchecksummed length field or a stale tail) are reported as KNOWN-FINDING lines, any other route to an embedded frame as a VIOLATION."),
     "C09": ("exploration", "deterministic simulation with storage-damage injection: single-frame payload/CRC damage, frames enumerated per image",
             "DESIGN.md §5 C09", "Per seeded image, frames found by the independent parser are damaged one at a time (all frames x 6 variants in the thorough tier); open must succeed and every retained record whose append was not hit must be intact.",
             "Frame layout from the independent parser; extra records / missing record-less queues are not violations."),
@@ -106,7 +106,7 @@ def main():
             "kind_free_text": "deterministic simulator: real mrecordlog over a simulated file system (SimFs), simulated clock and seeded hasher; seeded history generator, reference model, effect-trace crash/power-loss image builder, damage and I/O-error injectors, minimiser, replay",
         }],
         "checks": checks,
-        "notes": "Hooks are not add-only: H2 rewrites two `use` lines and three call sites in src/rolling/directory.rs to cfg-switched aliases, H3 changes two cfg attributes in src/rolling/mod.rs, H4 one `use` in src/persist_policy.rs, H5 the HashMap type in src/mem/queues.rs; H1 adds src/verif.rs, a cfg-gated `pub mod verif` and a [lints.rust] check-cfg entry in Cargo.toml; H1b extends src/verif.rs only (more of the std::fs surface: OpenOptions create/truncate/append, File::sync_all/metadata, rename). With the guard off the token stream is unchanged. Seven genuine defects found by these checks were repaired by unguarded `fix:` commits in /repo (listed as `fixed:` in known_findings.json, failing replays in /verif/findings/). Exit codes of every check: 0 held / known findings only, 1 VIOLATION (replay reproduced in a fresh process), 2 harness or build error. VERIF_SEED seeds everything (default 20260925).",
+        "notes": "Hooks are not add-only: H2 rewrites two `use` lines and three call sites in src/rolling/directory.rs to cfg-switched aliases, H3 changes two cfg attributes in src/rolling/mod.rs, H4 one `use` in src/persist_policy.rs, H5 the HashMap type in src/mem/queues.rs; H1 adds src/verif.rs, a cfg-gated `pub mod verif` and a [lints.rust] check-cfg entry in Cargo.toml; H1b extends src/verif.rs only (more of the std::fs surface: OpenOptions create/truncate/append, File::sync_all/metadata, rename). With the guard off the token stream is unchanged. Nine genuine defects found by these checks were repaired by unguarded `fix:` commits in /repo (listed as `fixed:` in known_findings.json, failing replays in /verif/findings/); two are recorded, not repaired, as known findings of C08 (K1/K2 in DESIGN.md §10.3, fingerprints `C08/embedded-frame-via-trusted-length` and `C08/embedded-frame-via-stale-tail`): C08's checks print a KNOWN-FINDING line for each and exit 0. Exit codes of every check: 0 held / known findings only, 1 VIOLATION (replay reproduced in a fresh process), 2 harness or build error. VERIF_SEED seeds everything (default 20260925).",
         "not_applicable": na,
     }
     with open(os.path.join(ROOT, "MANIFEST.json"), "w") as f:
